@@ -3,5 +3,5 @@ EXTENDS OutTrack
 K3 == <<"tA/a", "tA/b", "tB/a">>
 K4 == <<"tA/a", "tA/b", "tB/a", "tB/b">>
 Bound == \A k \in KeySet : res[k].ver <= MaxVer
-View == <<res, tracking, touched>>
+View == <<res, tracking, touched, tw>>
 =============================================================================
